@@ -802,6 +802,8 @@ class Interp(object):
             if k == 'graph':
                 raise Undecided('truth of a graph (len)')
             return True
+        if k == 'opaque' and v.tag == 'nodeattrs' and getattr(self.ctx, 'recworld', None) is not None:
+            return self.ctx.recworld.nonempty(v.z)
         raise Undecided('truth of %s' % k)
 
     def ex_Attribute(self, e, fr):
@@ -852,6 +854,9 @@ class Interp(object):
         return self.call_value(f, argv, kwv, fr, e)
 
     def _merge_dstar(self, kwv, d):
+        if d.kind == 'opaque':
+            kwv['**'] = d               # **<opaque mapping>: kept as one unit (only observed calls accept it)
+            return
         if d.kind != 'dict':
             raise Undecided('** of non-literal dict')
         for k, v in d.pairs:
@@ -1224,6 +1229,9 @@ class Interp(object):
         if k == 'intdict':
             from .accmodel import intdict_getitem
             return intdict_getitem(self, c, key)
+        if k == 'record':
+            from .linemodel import record_getitem
+            return record_getitem(self, c, key)
         if k == 'opaque' and c.tag == 'trpkey':
             ci = concrete_int(key.z) if key.kind == 'int' else None
             w = getattr(self.ctx, 'trpworld', None)
